@@ -227,6 +227,7 @@ def one_call(res, stats, pending, cid, ts_in, sm, method, kw, ids, label):
         return
     for call in rec.calls:
         tname = call["table"]
+        stats["has_variance"].setdefault(method, {}).setdefault(tname, set()).add(call["var"] is not None)
         # hypothesis of written_everywhere: the code's own assert
         if call["var"] is not None:
             stats["hyp_len_total"] += 1
@@ -282,7 +283,20 @@ def one_call(res, stats, pending, cid, ts_in, sm, method, kw, ids, label):
 
 
 def compare_with_model(res, pending, stats):
-    replies = mc.run_model({k: v["text"] for k, v in pending.items()})
+    texts = {k: v["text"] for k, v in pending.items()}
+    for m in stats["has_variance"]:
+        texts[f"MV.{m}"] = f"case MV.{m}\nmethodvar {m}\nend\n"
+    replies = mc.run_model(texts)
+    # which tables get a variance from which method: the model's claim vs what the real calls were given
+    for m, obs in stats["has_variance"].items():
+        want = " ".join(f"{k}={'1' if obs.get(t) == {True} else '0' if obs.get(t) == {False} else '?'}"
+                        for k, t in (("nodeVar", "nodes"), ("mutVar", "mutations")))
+        got = replies.get(f"MV.{m}")
+        got = got if isinstance(got, str) else None
+        if got != want:
+            res.corr_failures.append(Violation("method-variance-wiring-differs", f"{m}: real calls had variance {want}, model says {got}",
+                                               dict(kind="methodvar", method=m), "B"))
+    stats["has_variance"] = {m: {t: sorted(v) for t, v in d.items()} for m, d in stats["has_variance"].items()}
     for key, p in pending.items():
         m = replies.get(key)
         if m is None:
@@ -317,7 +331,7 @@ def check_hd(stats):
 
 def new_stats():
     return dict(methods={}, raised={}, oracle_classes={}, impl_outcomes={}, model_outcomes={}, undecodable=0,
-                hyp_len_ok=0, hyp_len_total=0, set_metadata_true_but_no_variance=0, classes=0, pairs=0, random_cases=0)
+                has_variance={}, hyp_len_ok=0, hyp_len_total=0, set_metadata_true_but_no_variance=0, classes=0, pairs=0, random_cases=0)
 
 
 def lattice(ctx, res, stats, pending, rng, all_pairs):
